@@ -46,8 +46,12 @@ def block_case(draw):
                               user_t=(False, False, True)))
     T = spec['maxtime']
     # horizon mode
-    spec['horizon_mode'] = draw(st.sampled_from(['text', 'text', 'attr']))
-    if spec['horizon_mode'] == 'attr':
+    # text: MaxTime line only; attr: set on the solver before parsing (overrides the text); parser-edit: the parsed value
+    # is edited afterwards (solver.Parser.MaxTime = T, as one of the bundled examples does) after another value had been
+    # set on the solver; late-attr: the text states T and the solver attribute is assigned only after parsing (too late
+    # to matter).  In every mode the horizon in force when the solve starts is T.
+    spec['horizon_mode'] = draw(st.sampled_from(['text', 'text', 'attr', 'parser-edit', 'late-attr']))
+    if spec['horizon_mode'] != 'text':
         spec['text_maxtime'] = draw(st.integers(0, 9))
     # exogenous forms
     new_exo = []
@@ -132,7 +136,7 @@ def run_block(spec):
     from sfc_models.equation_solver import EquationSolver
     T = spec['maxtime']
     labels = ['horizon:' + spec['horizon_mode'], 'reduction:%s' % spec['reduction']]
-    if spec['horizon_mode'] == 'attr':
+    if spec['horizon_mode'] in ('attr', 'parser-edit'):
         tmp = dict(spec)
         tmp['maxtime'] = spec['text_maxtime']
         text = blocks.render(tmp)
@@ -143,9 +147,15 @@ def run_block(spec):
         es.AddFunction(fn, f)
     if spec['horizon_mode'] == 'attr':
         es.MaxTime = T
+    if spec['horizon_mode'] == 'parser-edit':
+        es.MaxTime = (spec['text_maxtime'] + 3) % 7
     outcome, err = 'ok', None
     try:
         es.ParseString(text)
+        if spec['horizon_mode'] == 'parser-edit':
+            es.Parser.MaxTime = T
+        if spec['horizon_mode'] == 'late-attr':
+            es.MaxTime = spec['text_maxtime']
         # Python-object forms are installed the way the suite does it: by replacing the parsed entry
         objs = {}
         for name, txt, form, values in spec['exo']:
